@@ -93,6 +93,25 @@ def _valid_item(obj):
         return False
 
 
+_VALID_CACHE = {}
+
+
+def _data_valid(data):
+    """_valid_item(unpickle(data)) memoised per bytes object (the pure-Python unpickler is slow)."""
+    key = id(data)
+    hit = _VALID_CACHE.get(key)
+    if hit is not None and hit[0] is data:
+        return hit[1]
+    try:
+        ok = _valid_item(_safe_loads(data))
+    except BaseException:
+        ok = False
+    if len(_VALID_CACHE) > 512:
+        _VALID_CACHE.clear()
+    _VALID_CACHE[key] = (data, ok)
+    return ok
+
+
 def _safe_loads(data):
     """Harness-side validity check with the pure-Python unpickler (the C one prints SystemError
     noise and may touch freed memory on some garbage inputs)."""
@@ -516,11 +535,8 @@ class World:
         last = n.t_used
         self.count('cleanup.remove')
         if pclass == 'pkl':
-            try:
-                if not _valid_item(_safe_loads(n.data)):
-                    return                   # a damaged entry is not "in use"
-            except BaseException:
-                return
+            if not _data_valid(n.data):
+                return                       # a damaged entry is not "in use"
         if self.now - last < pc._CACHED_FILE_MAXIMUM_SURVIVAL - 1 and pclass in ('pkl', 'lock'):
             self._violate(ctx, 'maintenance', 'remove-live:' + pclass,
                           'clean-up removes %s, really last read or written %.0f s ago (atime %.0f s, mtime '
@@ -600,11 +616,7 @@ class World:
             n = self.fs.h_node(os.path.join(self.vdir(op.get('c', 0)), name))
             if n is None or n.is_dir:
                 return False
-            try:
-                item = _safe_loads(n.data)
-            except BaseException:
-                return True
-            return not _valid_item(item)
+            return not _data_valid(n.data)
         except OSError:
             return False
 
@@ -684,6 +696,7 @@ class World:
         op = ctx.op
         self.log('d', ctx.index, proc.pid, res[0],
                  type(res[1]).__name__ if res[0] == 'exc' else '', ctx.steps)
+        self._record_observed(ctx)
         if res[0] == 'crash' or proc.dead:
             self.count('op.crashed')
             self._restart(proc)
@@ -701,6 +714,23 @@ class World:
                     self._violate(ctx, 'not-repaired', 'not-repaired',
                                   'fault-free: a new process parsed and saved the file, the next new process '
                                   'still was not served from the disk cache')
+
+    def _record_observed(self, ctx):
+        """An implementation may associate what it read with the latest mtime it observed itself
+        *before* reading (with time moving forward that is never newer than the content).  If mtimes
+        moved backwards meanwhile, or the read was torn by an in-place save, this pair is not one of
+        the file's versions: record it (also for an op that crashed after saving), it may legitimately
+        be served later while the file's mtime is not newer than that observation."""
+        op = ctx.op
+        if op['k'] not in ('parse', 'repaircheck') or 'code' in op or not ctx.pre_mtimes:
+            return
+        f = op['f'] % len(self.files)
+        m_obs = max(ctx.pre_mtimes)
+        for raw in ctx.src_raws:
+            got = b''.join(raw.bytes_read)
+            if not any(got == c and m is not None and m >= m_obs for c, m in self.versions.get(f, [])):
+                self.versions.setdefault(f, []).append((got, m_obs))
+                self.count('probe.observed_pair_recorded')
 
     def _restart(self, proc):
         if self.shared:
@@ -763,18 +793,7 @@ class World:
                     if m is not None and m >= m_min:
                         adm.append(c)
             for raw in ctx.src_raws:
-                got = b''.join(raw.bytes_read)
-                adm.append(got)
-                # An implementation may associate what it read with the latest mtime it observed itself
-                # *before* reading (with time moving forward that is never newer than the content).  If
-                # mtimes moved backwards meanwhile, or the read was torn by an in-place save, this pair
-                # is not one of the file's versions: record it, it may legitimately be served later
-                # while the file's mtime is not newer than that observation.
-                if ctx.pre_mtimes:
-                    m_obs = max(ctx.pre_mtimes)
-                    if not any(got == c and m is not None and m >= m_obs for c, m in self.versions.get(f, [])):
-                        self.versions.setdefault(f, []).append((got, m_obs))
-                        self.count('probe.observed_pair_recorded')
+                adm.append(b''.join(raw.bytes_read))
         seen = []
         for c in adm:
             if c not in seen:
